@@ -7,6 +7,8 @@
    KShape: a REAL indicator (Vwap, Mfm, Dema, Apo) run to quiescence against the network Kahn/Patterns.v gives for it, for the same
          periods, input lengths (equal or not) and input capacity: outputs closed, goroutines left, number of values delivered
          (bit 4, as for KNet). This ties the hand-written networks of Patterns.v, and the EMA-as-Skip abstraction, to the code.
+   KGen: a real indicator / base strategy run against the network REGENERATED from its Go source (Gen/All.v, *_Compute_desc), same
+         configuration, input lengths and capacity; compared like KShape, on admissible configurations.
    KFlow: an indicator or strategy run under a pacing / buffering / GOMAXPROCS variant (a ValRun case):
          bit 0: values differ from the regenerated model (so they are the same for every variant);
          bit 2: an output never closed, or a goroutine of the pipeline remained, although the configuration is admissible;
@@ -18,6 +20,7 @@ From Verif Require Import Base.FloatUtil Kahn.Kahn Kahn.Helpers Kahn.HelpersProo
 Inductive case :=
 | KNet (d : desc) (fuel : nat) (readers_finished no_goroutine_left : bool) (received_by_readers : list (list nat))
 | KShape (d : desc) (fuel : nat) (outputs_closed no_goroutine_left : bool) (output_lengths : list nat)
+| KGen (adm : bool) (d : desc) (fuel : nat) (outputs_closed no_goroutine_left : bool) (output_lengths : list nat)
 | KFlow (c : FlowRun.case).
 
 (* the readers of the outputs are the last nodes of a description; readers before them are the pipeline's own helper.Drain calls *)
@@ -35,6 +38,15 @@ Definition check03 (c : case) : nat :=
                    && (if fin then lists_eqb (received d t) recv else true) then 0 else 16
   | KShape d fuel fin clean lens =>
       if negb (wellformed d && caps_ok d) then 16
+      else let t := run fuel (build d) in
+           if negb (terminalb t) then 16
+           else if Bool.eqb (sinks_done d t) fin && Bool.eqb (no_leak t) clean
+                   && (if fin then list_eqb Nat.eqb (lastn (List.length lens) (map (@List.length nat) (received d t))) lens else true) then 0 else 16
+  | KGen adm d fuel fin clean lens =>
+      (* a regenerated network: compared on admissible configurations only (shapes and trend.Ma calls are represented by their lag,
+         which is exact about lengths and alignment but not about the slack inside a misaligned pipeline) *)
+      if negb adm then 0
+      else if negb (wellformed d && caps_ok d) then 16
       else let t := run fuel (build d) in
            if negb (terminalb t) then 16
            else if Bool.eqb (sinks_done d t) fin && Bool.eqb (no_leak t) clean
